@@ -412,7 +412,7 @@ fn range_sweep(args: &Args, ev: &mut Evidence) -> bool {
 
 pub fn run(args: &Args) -> i32 {
     let started = Instant::now();
-    let sessions = args.tier.pick(20_000u64, 600_000);
+    let sessions = args.tier.pick(250_000u64, 6_000_000);
     let seed = args.seed;
     if let Some(path) = &args.replay {
         let doc: serde_json::Value =
@@ -446,8 +446,8 @@ pub fn run(args: &Args) -> i32 {
         ],
         exhaustive: if exhaustive_ctor { Some(false) } else { None },
         floors: vec![
-            ("frames_compared".into(), args.tier.pick(30_000, 1_000_000)),
-            ("requests_that_must_be_rejected".into(), args.tier.pick(10_000, 300_000)),
+            ("frames_compared".into(), args.tier.pick(400_000, 10_000_000)),
+            ("requests_that_must_be_rejected".into(), args.tier.pick(150_000, 3_000_000)),
         ],
         min_classes: 40,
     };
